@@ -18,6 +18,8 @@ func init() {
 func C13(e *Env) {
 	r := e.R
 	e.analysedBase()
+	yamlKeysRule(e, "R11.12", "getter", "must_getter", "default_must_getter", "pkg", "container_type", "container_constructor", "type")
+	e.R.Rule("R11.12", "key table (shared with C11): getter, must_getter, default_must_getter, pkg, container_type, container_constructor and type are recognised under their documented spelling", 7)
 	r.Rule("R13.1", "method-set contract: for every instantiated service with getter G and type T, *ContainerType declares G() (T, error) and GInContext(context.Context) (T, error), declares MustG() T and MustGInContext(context.Context) T iff must-getter, nothing else besides the _helpers; exported package objects are exactly the type and the constructor under the configured names; in both modes", 10)
 	r.Rule("R13.2", "pairing: G calls c.Get(<its own service>), GInContext calls c.GetInContext(ctx, <same>), both convert through copier.Copy(s, &result, true); MustG calls c.G and MustGInContext calls c.GInContext(ctx) and panic on error", 6)
 	r.Rule("R01.6", "collision set (shared with C01): getters colliding with the runtime container's API or the embedded field are rejected", 12)
@@ -408,6 +410,8 @@ func c17Flag(e *Env) {
 func C20(e *Env) {
 	r := e.R
 	e.analysedBase()
+	yamlKeysRule(e, "R11.12", "scope", "services")
+	e.R.Rule("R11.12", "key table (shared with C11): `scope` is recognised under its documented spelling", 2)
 	r.Rule("R20.1", "the generated file declares no package-level variable (in any valuation, both modes)", 2)
 	r.Rule("R20.2", "the generated container struct has exactly one field, the embedded *container.Container: no state of its own", 2)
 	r.Rule("R20.3", "no generated function or closure assigns to a captured variable, a receiver field, or through a pointer/map it did not create: writes go to the executing function's own locals and named results only (the constructor initialises its own locals once)", 4)
